@@ -257,6 +257,9 @@ type c09Env struct {
 	avsOpt    c09AVSOpt
 	deposits  [][2][]byte // (asset, staker) pairs with a successful LST deposit
 	delegs    []c09Deleg
+	inReplay    bool // the call being made repeats the previous gateway message (same nonce / tx hash)
+	replayNonce uint64
+	replayCase  int
 }
 
 // forced choices for one doAVSx call (-1 / false = generator's own choice); reset after the call
@@ -292,7 +295,11 @@ func (c *c09Env) runPrecompile(ctx sdk.Context, pc vm.PrecompiledContract, pabi 
 	if err != nil {
 		panic("c09: pack " + method + ": " + err.Error())
 	}
-	txHash := common.BytesToHash(seedBytes("c09tx", c.nCase))
+	txCase := c.nCase
+	if c.inReplay {
+		txCase = c.replayCase
+	}
+	txHash := common.BytesToHash(seedBytes("c09tx", txCase))
 	ctx = ctx.WithGasMeter(sdk.NewInfiniteGasMeter())
 	if withTxHash {
 		ctx = ctx.WithValue(delegationprecompile.CtxKeyTxHash, txHash)
@@ -595,12 +602,25 @@ func (c *c09Env) doDelegation(kind string, tags []string, chain uint32, caller c
 	c.ledgerFacts(c.env.Ctx, &facts, uint64(chain), as, st, op, amount, false)
 	c.nonce++
 	nonce := c.nonce
+	// a replayed / batched gateway message re-uses the LayerZero nonce and tx hash of the call it repeats
+	if c.inReplay {
+		nonce = c.replayNonce
+	}
+	caseAtRun := c.nCase
 	res, classes, keys := c.observe(func(ctx sdk.Context) string {
 		return c.runPrecompile(ctx, c.delegPC, c.delegPC.ABI, caller, method, txhash, chain, nonce, as, st, []byte(op), amount)
 	}, true)
 	c.emit(kind, map[string]string{"chain": fmt.Sprint(chain), "asset": hex.EncodeToString(as), "staker": hex.EncodeToString(st), "operator": op, "amount": amount.String(), "gateway": fmt.Sprint(caller == c.gateway)}, facts, res, classes, keys, tags)
 	if res == "ok" && kind == "Delegate" {
 		c.delegs = append(c.delegs, c09Deleg{as, st, op})
+	}
+	// every second accepted undelegation is followed, in the same block, by a repetition of the same gateway message
+	// (same nonce, same tx hash, same operator, amount 1): the rng stream is not touched, so all other inputs stay
+	// what they were
+	if res == "ok" && kind == "Undelegate" && txhash && !c.inReplay && nonce%2 == 0 {
+		c.inReplay, c.replayNonce, c.replayCase = true, nonce, caseAtRun
+		c.doDelegation("Undelegate", nil, chain, caller, as, st, op, big.NewInt(1), true)
+		c.inReplay = false
 	}
 	return res
 }
